@@ -18,6 +18,7 @@ import (
 type c20Fail struct {
 	class string
 	what  string
+	sem   string // semantic attribution computed on the original evaluation ("" = none)
 }
 
 type c20Result struct {
@@ -34,7 +35,7 @@ type c20Result struct {
 }
 
 func (r *c20Result) fail(class, what string, args ...any) {
-	r.fails = append(r.fails, c20Fail{class, fmt.Sprintf(what, args...)})
+	r.fails = append(r.fails, c20Fail{class: class, what: fmt.Sprintf(what, args...)})
 }
 
 // ---- declaration keys -------------------------------------------------------------
@@ -266,6 +267,7 @@ func c20CheckPkgOpts(p c20Pkg, o c20Opts) *c20Result {
 	// (2) identical fully evaluated result at every path
 	if after.dump != before.dump {
 		res.fail("eval-changed", "evaluated result differs after trim: %s", c20DiffDumps(before.dump, after.dump))
+		res.fails[len(res.fails)-1].sem = c20SemanticClass(before, after.dump)
 	} else if after.schema != before.schema {
 		res.schemaDiff = true
 	}
@@ -362,12 +364,12 @@ func c20TextDiff(a, b c20Pkg) string {
 
 // c20Shrink removes declarations (largest first) while the package keeps failing with the
 // given class. Bounded by maxEval evaluations of the pipeline.
-func c20Shrink(p c20Pkg, class string, maxEval int) c20Pkg {
+func c20Shrink(p c20Pkg, class, sem string, maxEval int) c20Pkg {
 	failsWith := func(q c20Pkg) bool {
 		c20Beat()
 		r := c20CheckPkgOpts(q, c20Opts{perDecl: class == "removed-alone-changes" || class == "readded-alone-changes" || class == "removed-alone-unloadable"})
 		for _, f := range r.fails {
-			if f.class == class {
+			if f.class == class && f.sem == sem {
 				return true
 			}
 		}
